@@ -953,6 +953,9 @@ func (h *runner) randPert(ents []ent, st pcrbruteforcer.SettingsReproducePCR0, l
 		if k > n {
 			k = n
 		}
+		if k < 0 { // negative settings are generated too: nothing can be dropped then
+			k = 0
+		}
 	case "drop-all":
 		k = n
 	}
